@@ -5,13 +5,17 @@ import (
 	"fmt"
 	"strconv"
 	"strings"
+	"sync"
+	"sync/atomic"
 	"testing"
 
 	enc "github.com/named-data/ndnd/std/encoding"
 	"verif/harness/common"
 )
 
-var compTypes = []uint64{8, 8, 8, 8, 1, 2, 9, 32, 0x32, 0x34, 0x36, 0x38, 0x3a, 7, 252, 253, 255, 256, 65535, 65536, 1 << 32, 0}
+var compTypes = []uint64{8, 8, 8, 8, 1, 2, 9, 32, 0x32, 0x34, 0x36, 0x38, 0x3a, 7, 252, 253, 255, 256, 65535, 65536, 1 << 32, 0,
+	// the whole 64-bit range of type numbers the decoder accepts (differences that overflow int64)
+	1<<62 + 8, 1<<63 - 1, 1 << 63, 1<<63 + 9, 1<<64 - 1}
 
 var specials = []string{"", ".", "..", "...", "%", "=", "/", "\\", "a=b", "%41", "a/b", "~-_.", " ", "\x00", "\xff", "\x80\xfe", "é", "A", "z9"}
 
@@ -197,6 +201,11 @@ func gen(g *common.Gen) {
 			g.Op("h %s", bt)
 			g.Op("h %s", common.NameText(a.Clone()))
 			g.Op("ph %s", ct)
+			if k == 0 {
+				// hashing is used from every face goroutine: the hash of a name must not depend on
+				// what other goroutines hash at the same time
+				g.Op("hc %s %s %s", at, bt, ct)
+			}
 			// Component.String builds its result by repeated string concatenation (quadratic): keep
 			// the 64 KiB values out of the URI operations so the quick tier stays quick
 			if a.EncodingLength() < 5000 && b.EncodingLength() < 5000 {
@@ -339,6 +348,33 @@ func exec(op string) string {
 		return common.CompText(c)
 	case "h":
 		return fmt.Sprintf("%x", common.ParseNameText(f[1]).Hash())
+	case "hc":
+		names := []enc.Name{common.ParseNameText(f[1]), common.ParseNameText(f[2]), common.ParseNameText(f[3])}
+		want := make([]uint64, len(names))
+		wantP := make([]string, len(names))
+		for i, n := range names {
+			want[i] = n.Hash()
+			wantP[i] = hashList(n.PrefixHash())
+		}
+		var bad atomic.Int64
+		var wg sync.WaitGroup
+		for g := 0; g < 6; g++ {
+			wg.Add(1)
+			go func(g int) {
+				defer wg.Done()
+				n := names[g%len(names)].Clone() // private copy: only the hashing code is shared
+				for k := 0; k < 300; k++ {
+					if n.Hash() != want[g%len(names)] || hashList(n.PrefixHash()) != wantP[g%len(names)] {
+						bad.Add(1)
+					}
+				}
+			}(g)
+		}
+		wg.Wait()
+		if bad.Load() > 0 {
+			return "unstable:" + strconv.FormatInt(bad.Load(), 10)
+		}
+		return "stable"
 	case "ph":
 		n := common.ParseNameText(f[1])
 		ph := n.PrefixHash()
